@@ -7,4 +7,5 @@ import (
 	_ "verif/checks/c13"
 	_ "verif/checks/c14"
 	_ "verif/checks/c17"
+	_ "verif/checks/c18"
 )
